@@ -87,7 +87,9 @@ class _IteratorToAsyncIterator(t.Generic[V]):
 def auto_aiter(
     iterable: "t.AsyncIterable[V] | t.Iterable[V]",
 ) -> "t.AsyncIterator[V]":
-    if hasattr(iterable, "__aiter__"):
+    # look at the type like ``async for`` does, an instance may answer
+    # any attribute name from ``__getattr__``
+    if hasattr(type(iterable), "__aiter__"):
         return iterable.__aiter__()
     else:
         return _IteratorToAsyncIterator(iter(iterable))
